@@ -446,6 +446,7 @@ PROPS = {
                                     + [W.gen_world_scan_root_link(Rng(s, "c02-link", i)) for i in range(20 if t == "quick" else 400)]
                                     + [W.gen_world_zero_piece_stale(Rng(s, "c02-zero", i)) for i in range(12 if t == "quick" else 240)]
                                     + [W.gen_world_mount_below_scan(Rng(s, "c02-mnt", i)) for i in range(4 if t == "quick" else 40)]
+                                    + [W.gen_world_pad_named_candidates(Rng(s, "c02-padname", i)) for i in range(8 if t == "quick" else 80)]
                                     + worlds_default(t, s, "c02", 400, 8000, tweak_threads), post=check_meta_faults),
     "C03": dict(module="TB.Props.C03", theorems=["C03_confined", "C03_readonly", "C03_plain"], clauses=["c03-"], worlds=lambda t, s: worlds_default(t, s, "c03", 300, 6000, tweak_threads) + fault_worlds(t, s)
                                     + [W.gen_world_c16(Rng(s, "c03-args", i), i) for i in range(45 if t == "quick" else 900)]
